@@ -3,9 +3,9 @@
    canonical text result. The case reader is the Buffer model itself. *)
 From GD Require Import Base.Prelude Model.Strings Model.Buffer Model.Unreal2Str Model.BufOps.
 From GD Require Import Model.Net Model.Valve Model.ValveShow Model.Master Model.Settings Model.Quake Model.Unreal2.
-From GD Require Import Spec.Rand Spec.ValveSpec Spec.ValveGen Spec.CaseEnc Spec.MasterSpec Spec.QuakeSpec Spec.Unreal2Spec Spec.GamespySpec.
+From GD Require Import Spec.Rand Spec.ValveSpec Spec.ValveGen Spec.CaseEnc Spec.MasterSpec Spec.QuakeSpec Spec.Unreal2Spec Spec.GamespySpec Spec.GamesSpec.
 From GD Require Import Model.View Gen.CommonImpls Model.ViewInst Spec.ViewSpec.
-From GD Require Import Model.Dispatch Gen.ModulesTable Gen.GamesTable Model.IdCheck Model.Gamespy.
+From GD Require Import Model.Dispatch Gen.ModulesTable Gen.GamesTable Model.IdCheck Model.Gamespy Model.Games.
 
 Definition rd_u8 : R N := read_uint true 1.
 Definition rd_u16 : R N := read_uint true 2.
@@ -470,6 +470,47 @@ Definition case_spec_gamespy (ver : N) : R bytes :=
          ++ str ";parts=" ++ show_N (lenN (s3_packets s)) ++ str ";max=" ++ show_N (max_len (s3_packets s))
          ++ str ";req=" ++ intercalate (str ",") (map show_hex (s3_requests s))).
 
+(* family 50: single-game protocols. game: 0 ffow, 1 savage2, 2 jc2m, 3 mindustry, 4 theship, 5 battalion1944 *)
+Definition case_game : R bytes :=
+  let* game := rd_u8 in
+  let* port := rd_u16 in
+  let* ts := rd_tsettings in
+  let* n := rd_script in
+  match ts with
+  | Ok t =>
+      if 1000000 <? ts_retries_or_default t then ret model_abstains
+      else ret (if game =? 0 then show_query show_ffow (ffow_query (bz_lookup []) port t n)
+                else if game =? 1 then show_query show_savage2 (savage2_query port t n)
+                else if game =? 2 then show_query show_jc2m (jc2m_query port t n)
+                else if game =? 3 then show_query show_mindustry (mindustry_query port t n)
+                else if game =? 4 then show_query show_ship_response (theship_query (bz_lookup []) port t n)
+                else show_query show_game_response (battalion_query (bz_lookup []) port n))
+  | o => ret (show_outcome (fun _ => []) o ++ str "|")
+  end.
+(* family 150: spec cases: game, seed -> datagrams | expected | tags *)
+Definition case_spec_game : R bytes :=
+  let* game := rd_u8 in
+  let* seed := rd_u64 in
+  let line (dgs : list bytes) (expected : bytes) (tags : bytes) :=
+    intercalate (str ",") (map show_hex dgs) ++ str "|" ++ expected ++ str "|" ++ tags ++ str ";max=" ++ show_N (max_len dgs) in
+  if game =? 0 then let s := fst (gen_ffow seed) in ret (line [ffow_reply s] (show_ffow (fs_resp s)) (str "np=0"))
+  else if game =? 1 then let s := fst (gen_savage2 seed) in ret (line [savage2_reply s] (show_savage2 (ss_resp s)) (str "np=0"))
+  else if game =? 2 then
+    let s := fst (gen_jc seed) in
+    ret (line (jc_script s) (show_jc2m (jc_expected s))
+           (str "np=" ++ show_N (lenN (js_players s)) ++ str ";req=" ++ intercalate (str ",") (map show_hex (jc_requests s))))
+  else if game =? 3 then
+    let '(r, gm) := fst (gen_mindustry seed) in ret (line [mindustry_reply r gm] (show_mindustry r) (str "np=0"))
+  else if game =? 4 then
+    let '(st, o) := fst (gen_valve_for ship_engine seed) in
+    ret (line (valve_script st o gathering_default) (show_outcome show_ship_response (ship_expected st))
+           (str "np=" ++ show_N (lenN (vs_players st)) ++ str ";wf=" ++ show_bool (wf_state ship_engine st)))
+  else
+    let '((st0, o), s') := gen_valve_for bat_engine seed in
+    let st := mk_vstate (vs_info st0) (vs_players st0) (fst (gen_bat_rules s') ++ vs_rules st0) in
+    ret (line (valve_script st o gathering_default) (show_outcome show_game_response (bat_expected st))
+           (str "np=" ++ show_N (lenN (vs_players st)) ++ str ";wf=" ++ show_bool (wf_state bat_engine st))).
+
 Definition run_case_R : R bytes :=
   let* fam := rd_u8 in
   if fam =? 1 then case_bufops
@@ -490,7 +531,9 @@ Definition run_case_R : R bytes :=
   else if fam =? 41 then case_gamespy 1
   else if fam =? 42 then case_gamespy 2
   else if fam =? 43 then case_gamespy 3
+  else if fam =? 50 then case_game
   else if fam =? 110 then case_spec_valve
+  else if fam =? 150 then case_spec_game
   else if fam =? 141 then case_spec_gamespy 1
   else if fam =? 142 then case_spec_gamespy 2
   else if fam =? 143 then case_spec_gamespy 3
